@@ -583,4 +583,116 @@ theorem solveStep_lands (s : St) :
         · injection hd with hd
           exact Or.inr (Or.inl ⟨x, hx, by rw [hxt, ← hd]; grind⟩)
 
+/-! ### no action completes after its date -/
+
+def PoppedLe (s : St) : Prop := ∀ x ∈ s.popped, x.1 ≤ x.2.date
+
+theorem popWindow_poppedLe (now : Rat) (n : Nat) (s : St) (re : List HeapE) (hn : s.now = now) (h : DInv now s.k)
+    (hp : PoppedLe s) : PoppedLe (popWindow n s re).1 := by
+  induction n generalizing s re with
+  | zero => exact hp
+  | succ n ih =>
+    unfold popWindow
+    simp only []
+    split
+    · exact hp
+    · split
+      · unfold PoppedLe at hp ⊢; simpa using hp
+      · rename_i j hj
+        simp only [pick_k, pick_now] at hj ⊢
+        obtain ⟨hmem, _⟩ := getD_mem_of_mem_range_filter s.k.heap _ _ _ hj
+        have he := h.heap _ hmem
+        have hp' : ∀ x ∈ (pick ((List.range s.k.heap.length).filter
+            (fun j => (s.k.heap.getD j default).due s.now)).length s).2.popped ++ [(s.now, s.k.heap.getD j default)],
+            x.1 ≤ x.2.date := by
+          intro x hx
+          simp only [List.mem_append, List.mem_singleton, pick_popped] at hx
+          rcases hx with hx | hx
+          · exact hp x hx
+          · subst hx; simp only; rw [hn]; exact he.1
+        split
+        · apply ih
+          · simpa only [pick_now] using hn
+          · exact h.shr (shr_of _ _ (List.Sublist.refl _) (removeNth_sublist _ _) rfl rfl rfl)
+          · exact hp'
+        · apply ih
+          · simpa only [pick_now] using hn
+          · refine h.shr ?_
+            refine ⟨List.Sublist.refl _, removeNth_sublist _ _, rfl, ?_, rfl, fun _ => Or.inl rfl, fun _ h => h,
+              fun _ h => h, fun _ h => h, fun _ h => Or.inl h, fun _ h => h⟩
+            simp only [K.setImpl]
+            rw [map_upd_inv]
+            intro _; rfl
+          · exact hp'
+
+theorem outerTail_popped (s : St) (dl : Option Rat) : (outerTail s dl).popped = s.popped := by
+  unfold outerTail
+  simp only []
+  split <;> (try split) <;> rfl
+
+theorem step_poppedLe (s : St) (h : SInv s) (hp : PoppedLe s) : PoppedLe (step s) := by
+  unfold step
+  split
+  · exact hp
+  · split
+    · rw [outer_eq]
+      split
+      · exact hp
+      · have key : PoppedLe (solveStep s (outerDelta s)) := by
+          cases hd : outerDelta s with
+          | none => exact hp
+          | some d =>
+            unfold solveStep
+            simp only []
+            -- the clock is advanced first: the invariants hold at the new date (`solveStep_sinv`)
+            have hadv : DInv (s.now + d) s.k := by
+              have hs := solveStep_sinv s h
+              rw [hd] at hs
+              -- re-derive the advanced invariant as in `solveStep_sinv`
+              have hT : ∀ t ∈ s.k.timers, s.now ≤ t.date := h.d.tim
+              have hd0 : 0 ≤ d := by
+                refine timeDelta_nonneg s.now _ _ d ?_ hd
+                intro t ht
+                have := minDate_mem _ _ ht
+                obtain ⟨x, hx, rfl⟩ := List.mem_map.mp this
+                exact hT x hx
+              have htim : ∀ t ∈ s.k.timers, s.now + d ≤ t.date := by
+                intro t ht
+                cases hm : minDate (s.k.timers.map (·.date)) with
+                | none => have := minDate_none hm; simp at this; rw [this] at ht; simp at ht
+                | some m =>
+                  unfold outerDelta at hd
+                  rw [hm] at hd
+                  have h1 := timeDelta_le_timer _ _ _ _ hd
+                  have h2 := minDate_le _ _ hm t.date (List.mem_map.mpr ⟨t, ht, rfl⟩)
+                  grind
+              have hheap : ∀ e ∈ s.k.heap, s.now + d ≤ e.date := by
+                intro e he
+                cases hm : minDate (s.k.heap.map (·.date)) with
+                | none => have := minDate_none hm; simp at this; rw [this] at he; simp at he
+                | some m =>
+                  unfold outerDelta at hd
+                  rw [hm] at hd
+                  have hmem := minDate_mem _ _ hm
+                  obtain ⟨x, hx, hxm⟩ := List.mem_map.mp hmem
+                  have hx0 := (h.d.heap x hx).1
+                  have h1 := timeDelta_le_top _ _ m d (by rw [← hxm]; exact hx0) hd
+                  have h2 := minDate_le _ _ hm e.date (List.mem_map.mpr ⟨e, he, rfl⟩)
+                  grind
+              exact h.d.advance (by grind) htim hheap
+            have := popWindow_poppedLe (s.now + d) s.k.heap.length { s with now := s.now + d } [] rfl hadv hp
+            exact this
+        have k2 : PoppedLe (timersLoop ((solveStep s (outerDelta s)).k.timers.length + 1) (solveStep s (outerDelta s))) := by
+          unfold PoppedLe; rw [timersLoop_popped]; exact key
+        unfold PoppedLe
+        simp only []
+        rw [outerTail_popped]
+        exact k2
+    · unfold PoppedLe at hp ⊢; simpa [subround] using hp
+
+theorem run_poppedLe (n : Nat) (s : St) (h : SInv s) (hp : PoppedLe s) : PoppedLe (run n s) := by
+  induction n generalizing s with
+  | zero => exact hp
+  | succ n ih => unfold run; exact ih _ (step_sinv s h) (step_poppedLe s h hp)
+
 end SgVerif.TimeCore
